@@ -41,7 +41,13 @@ def case_strategy(draw, tier="quick"):
         expr["base"] = draw(st.sampled_from(["y", "g"]))
     if expr["agg"] in ("var", "std") and expr["base"] == "xy" and not group:
         expr["base"] = "x"
+    if expr["agg"] in ("var", "std"):
+        expr["ddof"] = draw(st.sampled_from([1, 1, 0]))
     return {"table": t, "cuts": cuts, "expr": expr}
+
+
+def ddof(expr):
+    return {"ddof": expr["ddof"]} if "ddof" in expr else {}
 
 
 def window_slice(cat, w):
@@ -56,24 +62,24 @@ def stream_expr(sdf, expr):
     if expr["group"]:
         gb = w.groupby("g") if expr["group"] == "col" else w.groupby(w.g)
         sel = {"xy": ["x", "y"], "x": "x", "y": "y"}[expr["base"]]
-        return getattr(gb[sel], expr["agg"])()
+        return getattr(gb[sel], expr["agg"])(**ddof(expr))
     sel = w[["x", "y"]] if expr["base"] == "xy" else w[expr["base"]]
     a = expr["agg"]
     if a == "size":
         return sel.size
-    return getattr(sel, a)()
+    return getattr(sel, a)(**ddof(expr))
 
 
 def pandas_expr(df, expr):
     if expr["group"]:
         gb = df.groupby("g") if expr["group"] == "col" else df.groupby(df.g)
         sel = {"xy": ["x", "y"], "x": "x", "y": "y"}[expr["base"]]
-        return getattr(gb[sel], expr["agg"])()
+        return getattr(gb[sel], expr["agg"])(**ddof(expr))
     sel = df[["x", "y"]] if expr["base"] == "xy" else df[expr["base"]]
     a = expr["agg"]
     if a == "size":
         return sel.size
-    return getattr(sel, a)()
+    return getattr(sel, a)(**ddof(expr))
 
 
 def execute(case):
